@@ -371,6 +371,17 @@ int _vnacal_new_add_common(vnacal_new_add_arguments_t vnaa)
     assert(ptype != '\000');
 
     /*
+     * In a rectangular calibration, the abbreviated measurement matrix
+     * cannot be larger than the full one.
+     */
+    if (min_b_rows > full_m_rows) {
+	min_b_rows = full_m_rows;
+    }
+    if (min_b_columns > full_m_columns) {
+	min_b_columns = full_m_columns;
+    }
+
+    /*
      * Check the S matrix size.  TODO: these error messages may be
      * confusing if the caller is using something other than the mapped
      * matrix interface because otherwise, they don't provide the s
